@@ -1137,11 +1137,14 @@ func NewConwayBlockFromCbor(
 		return nil, fmt.Errorf("decode Conway block error: %w", err)
 	}
 
+	// A block without a header cannot be used, whether or not the body
+	// hash is validated
+	if conwayBlock.BlockHeader == nil {
+		return nil, errors.New("conway block header is nil")
+	}
+
 	// Validate body hash during parsing if not skipped
 	if !cfg.SkipBodyHashValidation {
-		if conwayBlock.BlockHeader == nil {
-			return nil, errors.New("conway block header is nil")
-		}
 		if err := common.ValidateBlockBodyHash(
 			data,
 			conwayBlock.BlockHeader.BlockBodyHash(),
